@@ -316,6 +316,29 @@ def length_groups(rng, L, order, quick):
     return out
 
 
+def gls_digit_scalars(rng, L, order, x, n):
+    """full-length scalars built from their base-|x| expansion k = d0 + d1|x| + d2|x|^2 + d3|x|^3 (x the curve
+    parameter): zero, one and maximal digits at every position - the GLS recodings work on these digits"""
+    out = []
+    ax = abs(x)
+    if ax < 4:
+        return out
+    tries = 0
+    while len(out) < n and tries < 50 * n:
+        tries += 1
+        d = [rng.randrange(ax) for _ in range(4)]
+        pos = rng.randrange(3)
+        what = rng.choice(["zero", "one", "max"])
+        d[pos] = {"zero": 0, "one": 1, "max": ax - 1}[what]
+        if rng.random() < 0.3:
+            p2 = rng.randrange(3)
+            d[p2] = 0
+        k = d[0] + d[1] * ax + d[2] * ax ** 2 + d[3] * ax ** 3
+        if k.bit_length() == L and k < order:
+            out.append(("gls-digit-%s@%d" % (what, pos), k))
+    return out
+
+
 def scalar_classes(rng, L, hi, n):
     """n scalars of exactly L bits (top bit set), all < hi when hi is given"""
     out = []
@@ -459,17 +482,21 @@ def run_reg(ctx, R, tr):
             q = R.mem(K["sizeof_ep2_st"], 0)
             r2 = R.mem(K["sizeof_ep2_st"], 0)
             R.call("ep2_curve_get_gen", q)
+            xb = R.bn_new()
+            R.call("fp_prime_get_par", xb)
+            xpar = R.bn_val(xb)
+            gls = gls_digit_scalars(rng, L, n, xpar, 24)
             for fn in ("ep2_mul_monty", "ep2_mul_lwreg"):
                 unit += 1
                 if ctx.mine(unit) and R.has(fn):
-                    observe(fn, name, ("ep2_mul_",), EP2V, fn, lambda v: (r2, q, kbn(v)), scalar_classes(rng, L, n, nsc), order=n, L=L)
+                    observe(fn, name, ("ep2_mul_",), EP2V, fn, lambda v: (r2, q, kbn(v)), scalar_classes(rng, L, n, nsc) + gls, order=n, L=L)
             e = R.fpx_new(12)
             o = R.fpx_new(12)
             R.call("gt_get_gen", e)
             unit += 1
             if ctx.mine(unit):
                 observe("gt_exp_sec", name, ("gt_exp",), GTV, "gt_exp_sec", lambda v: (o, e, kbn(v)),
-                        scalar_classes(rng, L, n, nsc), order=n, L=L)
+                        scalar_classes(rng, L, n, nsc) + gls, order=n, L=L)
             unit += 1
             if ctx.mine(unit):
                 observe("g1_mul_sec", name, ("ep_mul_",), EPV, "g1_mul_sec", lambda v: (r, g, kbn(v)),
@@ -477,7 +504,7 @@ def run_reg(ctx, R, tr):
             unit += 1
             if ctx.mine(unit):
                 observe("g2_mul_sec", name, ("ep2_mul_",), EP2V, "g2_mul_sec", lambda v: (r2, q, kbn(v)),
-                        scalar_classes(rng, L, n, max(10, nsc // 2)), order=n, L=L)
+                        scalar_classes(rng, L, n, max(10, nsc // 2)) + gls, order=n, L=L)
             for p_ in (q, r2, e, o):
                 R.free(p_)
         R.free(g)
@@ -524,7 +551,8 @@ def run_reg(ctx, R, tr):
         unit += 1
         if ctx.mine(unit) and R.has("fb_exp_monty"):
             observe("fb_exp_monty", "GF(2^%d)" % K["RLC_FB_BITS"], ("fb_exp_",), FBV, "fb_exp_monty",
-                    lambda v: (fo, fx, kbn(v)), scalar_classes(rng, K["RLC_FB_BITS"], None, nsc))
+                    lambda v: (fo, fx, kbn(v)), scalar_classes(rng, K["RLC_FB_BITS"], None, nsc),
+                    order=1 << K["RLC_FB_BITS"], L=K["RLC_FB_BITS"])
         # bn_mxp_monty, 1024-bit and 512-bit exponents
         for bits in (512, 1024):
             m = rng.getrandbits(bits) | (1 << (bits - 1)) | 1
@@ -533,7 +561,7 @@ def run_reg(ctx, R, tr):
             unit += 1
             if ctx.mine(unit):
                 observe("bn_mxp_monty", "%d-bit" % bits, ("bn_mxp_",), BNV, "bn_mxp_monty", lambda v: (pc, pa, kbn(v), pm),
-                        scalar_classes(rng, bits, None, max(10, nsc // 2)))
+                        scalar_classes(rng, bits, None, max(10, nsc // 2)), order=1 << bits, L=bits)
             unit += 1
             if ctx.mine(unit) and bits == 512:
                 observe("bn_mxp_slide", "%d-bit" % bits, ("bn_mxp_",), BNV, "bn_mxp_slide", lambda v: (pc, pa, kbn(v), pm),
@@ -547,7 +575,7 @@ def run_reg(ctx, R, tr):
             unit += 1
             if ctx.mine(unit):
                 observe("fp_exp_monty", name, ("fp_exp_",), FPV, "fp_exp_monty", lambda v: (o, x, kbn(v)),
-                        scalar_classes(rng, R.p.bit_length(), None, nsc))
+                        scalar_classes(rng, R.p.bit_length(), None, nsc), order=R.p, L=R.p.bit_length())
     ctx.add("controls_run", controls_run)
     ctx.add("controls_varying", controls_varying)
     if controls_run and not controls_varying:
